@@ -294,15 +294,21 @@ def refs_of(op):
     return out
 
 
-def baseline_ops(ops, qi):
+ALGEBRA_KINDS = {"u_mul", "u_div", "u_pow", "u_root", "p_mul_u", "prefix_new", "p_bin", "p_pow"}
+
+
+def baseline_ops(ops, qi, include_algebra=False):
     """Definitions and declarations before ops[qi], plus whatever is needed to build
-    the operands of the query, then the query alone."""
+    the operands of the query, then the query alone.  include_algebra additionally
+    keeps every pure unit-algebra op (used only to diagnose whether a difference
+    comes from the order in which a unit's factors were first multiplied)."""
     q = ops[qi]
     by_id = {o["id"]: o for o in ops[:qi]}
     keep = set()
     stack = []
     for o in ops[:qi]:
-        if o["op"] in DEF_KINDS or (o["op"] == "prefix_new" and (o.get("name") or o.get("symbol"))):
+        if o["op"] in DEF_KINDS or (o["op"] == "prefix_new" and (o.get("name") or o.get("symbol"))) \
+                or (include_algebra and o["op"] in ALGEBRA_KINDS):
             keep.add(o["id"])
             stack.extend(refs_of(o))
     stack.extend(refs_of(q))
@@ -439,14 +445,18 @@ class C08Plan(RunPlan):
             cand = ops[:qi] + [{"op": "evict", "caches": None, "id": 10 ** 6}] + ops[qi:qi + 1]
             dtasks.append((tasks[i][0], {"engine": "B", "prop": self.prop, "ops": cand, "timeout": self.run_timeout}))
         dres = pool.run(dtasks) if dtasks else []
-        for (i, qi, v), dr in zip(pending, dres):
-            v["signature"] = "C08/history/" + self._mechanism(results[i]["ops"][qi], v, dr)
+        atasks = [(tasks[i][0], {"engine": "B", "prop": self.prop, "timeout": self.run_timeout,
+                                 "ops": baseline_ops(results[i]["ops"], qi, include_algebra=True)})
+                  for i, qi, v in pending]
+        ares = pool.run(atasks) if atasks else []
+        for (i, qi, v), dr, ar in zip(pending, dres, ares):
+            v["signature"] = "C08/history/" + self._mechanism(results[i]["ops"][qi], v, dr, ar)
             results[i].setdefault("violations", []).append(v)
         for r in results:
             if r and "ops" in r:
                 r["ops"] = None   # free memory
 
-    def _mechanism(self, q, v, dr):
+    def _mechanism(self, q, v, dr, ar=None):
         h2 = (dr.get("queries") or {}).get(str(q["id"]))
         b, h = v["detail"]["fresh_world_outcome"], v["detail"]["history_outcome"]
         if same_outcome(h2, b, 1e-9):
@@ -455,6 +465,12 @@ class C08Plan(RunPlan):
             if h.get("cls") == "ok" and b.get("cls") == "ok":
                 return "stale-ratio-cache"
             return "stale-cache"
+        if ar is not None:
+            a = (ar.get("queries") or {}).get(str(q["id"]))
+            if same_outcome(a, h, 1e-9):
+                # a fresh world that only repeats the history's pure unit algebra (no queries)
+                # already reproduces the history's answer
+                return "interned-factor-order"
         return "other"
 
     def run_one(self, template, req):
@@ -471,7 +487,9 @@ class C08Plan(RunPlan):
             if v is not None:
                 cand = ops[:qi] + [{"op": "evict", "caches": None, "id": 10 ** 6}] + ops[qi:qi + 1]
                 dr = template.request({"engine": "B", "prop": self.prop, "ops": cand, "timeout": self.run_timeout})
-                v["signature"] = "C08/history/" + self._mechanism(ops[qi], v, dr)
+                ar = template.request({"engine": "B", "prop": self.prop, "timeout": self.run_timeout,
+                                       "ops": baseline_ops(ops, qi, include_algebra=True)})
+                v["signature"] = "C08/history/" + self._mechanism(ops[qi], v, dr, ar)
                 res.setdefault("violations", []).append(v)
         return res
 
